@@ -529,7 +529,7 @@ def _called_without_effect(events: list[dict], res: dict) -> list[tuple[int, int
             if _split(names[h - 1])[0] == "filter":
                 continue
             for o, (x, c) in enumerate(zip(orow, crow), 1):
-                if x != c:
+                if c == 1 and x == 0:
                     out.append((j, h, o))
     return out
 
@@ -575,7 +575,7 @@ def run(ctx: Ctx) -> Outcome:
     rng = random.Random(ctx.seed)
     hook_cfgs = ["Hooks_quick.cfg", "Hooks_gen_quick.cfg"] if ctx.quick else [
         "Hooks_thorough_a.cfg", "Hooks_thorough_b.cfg", "Hooks_gen_thorough.cfg"]
-    auth_cfg = "HooksAuth_quick.cfg" if ctx.quick else "HooksAuth_thorough.cfg"
+    auth_cfgs = ["HooksAuth_quick.cfg"] if ctx.quick else ["HooksAuth_thorough.cfg", "HooksAuth_thorough3.cfg"]
     states = transitions = 0
     timings: dict = {}
     judged_total = 0
@@ -634,11 +634,15 @@ def run(ctx: Ctx) -> Outcome:
         dis_set = set(dis_idx)
         agree_idx = [i for i in range(len(items)) if i not in dis_set]
         probe = common.sample(rng, agree_idx, 160 if ctx.quick else 2000)
+        probe_bad = 0
         for i, r in zip(probe, common.pmap(_work_hooks_fresh, [items[i] for i in probe])):
             if r["obs"] != results[i]["obs"]:
-                raise tlc.TLCFailure("schema reuse changes the observation for %s" % items[i])
+                # the reused observation agreed with the spec, so the one on newly loaded schemas does not: a finding of its own
+                probe_bad += 1
+                if probe_bad <= 60:
+                    confirmed.append((json.loads(items[i]), r))
         # code -> spec: TLC judges every confirmed disagreement and a random sample of agreeing observations
-        judged = confirmed[:20000] + [(json.loads(items[i]), results[i]) for i in common.sample(rng, agree_idx, 6000 if ctx.quick else 20000)]
+        judged = confirmed[:20000] + [(json.loads(items[i]), results[i]) for i in common.sample(rng, agree_idx, 3000 if ctx.quick else 20000)]
         obs_file = ctx.path("hooks_obs.json")
         tlc.write_json(obs_file, [{"events": c["events"], "order": c.get("order", "AB"), "obs": r["obs"], "err": r["err"]} for c, r in judged])
         jres = tlc.require_ok(tlc.run_tlc("HooksJudge", "HooksJudge.cfg", env={"OBS_FILE": obs_file}, timeout=3000), "hooks judge")
@@ -657,72 +661,74 @@ def run(ctx: Ctx) -> Outcome:
         del results
 
     # ---------------- auth ----------------
-    res, items, cat = _enumerate("HooksAuth", auth_cfg)
-    spec_violations(res, "HooksAuth")
-    states += res.distinct
-    transitions += res.generated
-    _CAT = cat
-    _setup(cat["ops"])
-    t1 = time.time()
-    results = common.pmap(_work_auth, items)
-    timings["replay_s:" + auth_cfg] = round(time.time() - t1, 1)
-    timings["tlc_s:" + auth_cfg] = round(res.wall_s, 1)
-    fam[auth_cfg] = len(items)
-    bad: list[tuple[dict, list[int]]] = []
-    agree: list[int] = []
-    cand: list[int] = []
-    for i, (item, obs) in enumerate(zip(items, results)):
-        case = json.loads(item)
-        evaluations += 1
-        if '"C' in item:
-            nontrivial += 1
-        (cand if auth_verdicts(case, obs) else agree).append(i)
-    per_sig = {}
-    to_confirm = []
-    for i in cand:
-        case = json.loads(items[i])
-        sigs = {auth_signature(case, o, k, results[i]) for o, k in auth_verdicts(case, results[i])}
-        if any(per_sig.get(sg, 0) < 60 for sg in sigs):
-            to_confirm.append(i)
-        for sg in sigs:
-            per_sig[sg] = per_sig.get(sg, 0) + 1
-    for i, fresh_obs in zip(to_confirm, common.pmap(_work_auth_fresh, [items[i] for i in to_confirm])):
-        case = json.loads(items[i])
-        if auth_verdicts(case, fresh_obs):
-            bad.append((case, fresh_obs))
-    for sg, n in per_sig.items():
-        unconfirmed[sg] = unconfirmed.get(sg, 0) + n
-    for i in common.sample(rng, agree, 60 if ctx.quick else 1500):
-        if _work_auth_fresh(items[i]) != results[i]:
-            raise tlc.TLCFailure("schema reuse changes the auth observation for %s" % items[i])
-    judged_a = bad[:20000] + [(json.loads(items[i]), results[i]) for i in common.sample(rng, agree, 2000 if ctx.quick else 10000)]
-    obs_file = ctx.path("auth_obs.json")
-    tlc.write_json(obs_file, [{"events": c["events"], "obs": o} for c, o in judged_a])
-    jres = tlc.require_ok(tlc.run_tlc("HooksAuthJudge", "HooksAuthJudge.cfg", env={"OBS_FILE": obs_file}, timeout=3000), "auth judge")
-    tlc_dis = {(p[1], p[2], p[3]) for p in jres.prints if isinstance(p, list) and p and p[0] == "DISAGREE"}
-    py_dis = {(i, o, k) for i, (c, ob) in enumerate(judged_a, 1) for o, k in auth_verdicts(c, ob)}
-    if tlc_dis != py_dis:
-        raise tlc.TLCFailure("auth judge (TLC) and exporter disagree on %d cells: %s" % (len(tlc_dis ^ py_dis), sorted(tlc_dis ^ py_dis)[:5]))
-    judged_total += len(judged_a)
-    timings["judge_s:" + auth_cfg] = round(jres.wall_s, 1)
-    n_dis += len(cand)
-    for case, obs in bad:
-        seen_sig = set()
-        for o, kind in auth_verdicts(case, obs):
-            sig = auth_signature(case, o, kind, obs)
-            if sig in seen_sig:
-                continue
-            seen_sig.add(sig)
-            op = cat["ops"][o - 1]
-            out.violations.append(Violation(
-                sig, "auth %s for %s %s of schema %s: observed provider %s, may=%s must=%s in history: %s [schemas used in order %s]" % (
-                    kind, text(op["method"]).upper(), text(op["path"]), op.get("schema", "A"), obs[o - 1], [r[o - 1] for r in case["may"]],
-                    case["must"][o - 1], _short(case["events"]), case.get("order", "AB")),
-                {"kind": "auth", "events": concretise(case["events"], cat), "ops": cat["ops"], "order": case.get("order", "AB"),
-                 "may": case["may"], "must": case["must"]},
-            ))
-    pool = [(json.loads(items[i]), results[i]) for i in common.sample(rng, [j for j in agree if '"C' in items[j]] or agree, 2)]
-    samples += [{"history": _short(c["events"]), "may": c["may"], "must": c["must"], "observed_provider_per_operation": o} for c, o in pool]
+    for auth_cfg in auth_cfgs:
+        res, items, cat = _enumerate("HooksAuth", auth_cfg)
+        spec_violations(res, "HooksAuth")
+        states += res.distinct
+        transitions += res.generated
+        _CAT = cat
+        _setup(cat["ops"])
+        t1 = time.time()
+        results = common.pmap(_work_auth, items)
+        timings["replay_s:" + auth_cfg] = round(time.time() - t1, 1)
+        timings["tlc_s:" + auth_cfg] = round(res.wall_s, 1)
+        fam[auth_cfg] = len(items)
+        bad: list[tuple[dict, list[int]]] = []
+        agree: list[int] = []
+        cand: list[int] = []
+        for i, (item, obs) in enumerate(zip(items, results)):
+            case = json.loads(item)
+            evaluations += 1
+            if '"C' in item:
+                nontrivial += 1
+            (cand if auth_verdicts(case, obs) else agree).append(i)
+        per_sig = {}
+        to_confirm = []
+        for i in cand:
+            case = json.loads(items[i])
+            sigs = {auth_signature(case, o, k, results[i]) for o, k in auth_verdicts(case, results[i])}
+            if any(per_sig.get(sg, 0) < 60 for sg in sigs):
+                to_confirm.append(i)
+            for sg in sigs:
+                per_sig[sg] = per_sig.get(sg, 0) + 1
+        for i, fresh_obs in zip(to_confirm, common.pmap(_work_auth_fresh, [items[i] for i in to_confirm])):
+            case = json.loads(items[i])
+            if auth_verdicts(case, fresh_obs):
+                bad.append((case, fresh_obs))
+        for sg, n in per_sig.items():
+            unconfirmed[sg] = unconfirmed.get(sg, 0) + n
+        for i in common.sample(rng, agree, 60 if ctx.quick else 1500):
+            fresh_obs = _work_auth_fresh(items[i])
+            if fresh_obs != results[i]:  # the reused observation agreed with the spec, so this one does not
+                bad.append((json.loads(items[i]), fresh_obs))
+        judged_a = bad[:20000] + [(json.loads(items[i]), results[i]) for i in common.sample(rng, agree, 2000 if ctx.quick else 10000)]
+        obs_file = ctx.path("auth_obs.json")
+        tlc.write_json(obs_file, [{"events": c["events"], "obs": o} for c, o in judged_a])
+        jres = tlc.require_ok(tlc.run_tlc("HooksAuthJudge", "HooksAuthJudge.cfg", env={"OBS_FILE": obs_file}, timeout=3000), "auth judge")
+        tlc_dis = {(p[1], p[2], p[3]) for p in jres.prints if isinstance(p, list) and p and p[0] == "DISAGREE"}
+        py_dis = {(i, o, k) for i, (c, ob) in enumerate(judged_a, 1) for o, k in auth_verdicts(c, ob)}
+        if tlc_dis != py_dis:
+            raise tlc.TLCFailure("auth judge (TLC) and exporter disagree on %d cells: %s" % (len(tlc_dis ^ py_dis), sorted(tlc_dis ^ py_dis)[:5]))
+        judged_total += len(judged_a)
+        timings["judge_s:" + auth_cfg] = round(jres.wall_s, 1)
+        n_dis += len(cand)
+        for case, obs in bad:
+            seen_sig = set()
+            for o, kind in auth_verdicts(case, obs):
+                sig = auth_signature(case, o, kind, obs)
+                if sig in seen_sig:
+                    continue
+                seen_sig.add(sig)
+                op = cat["ops"][o - 1]
+                out.violations.append(Violation(
+                    sig, "auth %s for %s %s of schema %s: observed provider %s, may=%s must=%s in history: %s [schemas used in order %s]" % (
+                        kind, text(op["method"]).upper(), text(op["path"]), op.get("schema", "A"), obs[o - 1], [r[o - 1] for r in case["may"]],
+                        case["must"][o - 1], _short(case["events"]), case.get("order", "AB")),
+                    {"kind": "auth", "events": concretise(case["events"], cat), "ops": cat["ops"], "order": case.get("order", "AB"),
+                     "may": case["may"], "must": case["must"]},
+                ))
+        pool = [(json.loads(items[i]), results[i]) for i in common.sample(rng, [j for j in agree if '"C' in items[j]] or agree, 2)]
+        samples += [{"history": _short(c["events"]), "may": c["may"], "must": c["must"], "observed_provider_per_operation": o} for c, o in pool]
 
     out.coverage = {
         "states": states,
@@ -736,12 +742,12 @@ def run(ctx: Ctx) -> Outcome:
                 "through the real strategy for all %d operations of two schemas sharing operation labels, on the same schema / operation "
                 "objects, in both schema orders); non-trivial = the history contains a filter chain, an unregistration or an intermediate "
                 "generation" % (
-                    "+".join(hook_cfgs), auth_cfg, len(cat["ops"])),
+                    "+".join(hook_cfgs), "+".join(auth_cfgs), len(cat["ops"])),
         "exhaustive": True,
         "family_sizes": fam,
         "disagreeing_histories": n_dis,
         "disagreeing_histories_by_signature": unconfirmed,
-        "constants": {"hook_cfgs": hook_cfgs, "auth_cfg": auth_cfg},
+        "constants": {"hook_cfgs": hook_cfgs, "auth_cfgs": auth_cfgs},
         "timings": timings,
     }
     out.assumptions = [
